@@ -459,6 +459,10 @@ PANIC_EXCEPTIONS = [
      'constant ranges ..TAG_LENGTH / TAG_LENGTH.. of a [u8; 384/8] array'),
     (r'^core::primitives::J_hash$', 'slice-op', r'^copy_from_slice$', 2,
      'constant lengths: TAG_LENGTH + SHARED_SECRET_LENGTH = 384/8'),
+    (r'^abe_policy::rights::Right::from_point$', 'overflow', r'^Mul$', 1,
+     'capacity hint 4 * number of identifiers of an in-memory vector'),
+    (r'^abe_policy::access_policy::AccessPolicy::to_dnf$', 'overflow', r'^Mul$', 1,
+     'capacity hint: product of two in-memory vector lengths'),
     (r'^data_struct::dictionary::Dict::<K, V>::insert$', 'index', r'^index_mut<std::vec::Vec<\(K, V\)>>$', 1,
      'index read from the dictionary\'s own index map (structural invariant of Dict; all writers keep it)'),
     (r'^data_struct::dictionary::Dict::<K, V>::update_key$', 'index', r'^index_mut<std::vec::Vec<\(K, V\)>>$', 1,
@@ -476,6 +480,14 @@ def discharge(ctx, F, ps):
     if ps.kind == 'index' and ps.call is not None and len(ps.call.args) == 2:
         c = ps.call
         ra = lib.range_arg(body, c.args[1])
+        if ra is not None and ra[0] == 'RangeFrom':
+            # x[k..] needs len >= k
+            vals0 = [v[1] for v in ra[2] if v[0] == 'const' and v[1] is not None]
+            if len(vals0) == 1:
+                roots0 = lib.roots_of(body, c.args[0])
+                edges0 = lib.len_at_least_edges(body, roots0, vals0[0])
+                if edges0 and body.edges_dominate(edges0, ps.b):
+                    return 'dominated by a length check len >= %d' % vals0[0]
         if ra is not None:
             kind, fields, vals, ops = ra
             consts = [v[1] for v in vals if v[0] == 'const' and v[1] is not None]
@@ -533,6 +545,44 @@ def discharge(ctx, F, ps):
         why = bounds_by_range(body, ps)
         if why:
             return why
+        # constant index into a slice whose length was checked: x[0] under !x.is_empty()
+        cond = ps.term['cond']
+        _, d = lib.resolve_copy(body, op_local(cond)) if is_place(cond) else (None, None)
+        if d is not None and d.kind == 'assign' and d.rv['k'] == 'bin' and d.rv['op'] == 'Lt':
+            ci = lib.classify_scalar(body, d.rv['a'])
+            lr = len_roots(body, d.rv['b'])
+            if ci[0] == 'const' and ci[1] is not None and lr:
+                edges = lib.len_at_least_edges(body, lr, ci[1] + 1)
+                if edges and body.edges_dominate(edges, ps.b):
+                    return 'constant index %d dominated by a length check len >= %d' % (ci[1], ci[1] + 1)
+        return None
+    if ps.kind == 'overflow' and ps.detail == 'Sub' and ps.term is not None:
+        # `x.len() - 1` where x is known to be non-empty (Some edge of back()/front()/first()/last(), or !is_empty())
+        cond = ps.term['cond']
+        l = op_place(cond)['l'] if is_place(cond) else None
+        ds = [d for d in body.defs().get(l, []) if d.kind == 'assign'] if l is not None else []
+        for d in ds:
+            if d.rv['k'] == 'bin' and d.rv['op'] == 'SubWithOverflow' and d.rv['b'].get('c', {}).get('v') == 1:
+                lr = len_roots(body, d.rv['a'])
+                if not lr:
+                    continue
+                edges = list(lib.len_at_least_edges(body, lr, 1))
+                for c in body.calls(r'::(back|front|first|last|back_mut|front_mut)$'):
+                    if c.args and lib.roots_of(body, c.args[0]) & lr:
+                        # switch on the discriminant of the returned Option: the Some edge
+                        for b2 in sorted(body.live_blocks()):
+                            t2 = body.term(b2)
+                            if t2['k'] != 'switch' or not is_place(t2['d']):
+                                continue
+                            _, dd = lib.resolve_copy(body, op_local(t2['d']))
+                            if dd is not None and dd.kind == 'assign' and dd.rv['k'] == 'discr':
+                                src, _x = lib.resolve_copy(body, dd.rv['pl']['l'])
+                                if dd.rv['pl']['l'] == c.dest['l'] or src == c.dest['l']:
+                                    for v, bb in t2['cases']:
+                                        if v == 1:
+                                            edges.append((b2, bb))
+                if edges and body.edges_dominate(edges, ps.b):
+                    return 'len() - 1 of a collection known to be non-empty on this path'
         return None
     if ps.kind == 'list-split' or (ps.kind == 'vec-op' and ps.detail == 'split_off'):
         c = ps.call
